@@ -7,8 +7,8 @@
      complete:  done.write() = true;  waker.read().clone();  wake()           (error: err.write() = e first)
 
    C18: Ready never before the source's terminal, always eventually once it has happened (no lost wake-up), and the
-   result is every item in order (or the error).  WakerFirst = FALSE models the mistake "read the waker before setting
-   done" and shows the lost wake-up. *)
+   result is every item in order (or the error).  WakerFirst = TRUE models the mistake "read the waker before setting
+   done" and shows the lost wake-up; FALSE is the code as it is. *)
 EXTENDS Integers, Sequences, TLC
 CONSTANTS NItems, Fails, WakerFirst
 (* --algorithm ToVec {
